@@ -129,6 +129,26 @@ func c03History(r *rand.Rand, ln, rep, steps int) []Ev {
 				sl = ln // same length: always fits
 			}
 			src := c03Start(r, sl)
+			if r.Intn(4) == 0 && ln >= 2 {
+				// a source whose content (flags byte and fields) is one byte more than, exactly, or one byte less than the room the
+				// destination had at the start of the history: fields only - a clock reference last, or private data behind it
+				t := ln + []int{1, 0, -1, 1}[r.Intn(4)]
+				a := absAF{Len: 183}
+				switch {
+				case t >= 15 && r.Intn(2) == 0:
+					a.HasPCR, a.PCR, a.HasOPCR, a.OPCR = true, rndBytes(r, 6), true, rndBytes(r, 6)
+					a.HasTPD, a.TPD = true, rndBytes(r, t-14)
+				case t == 13:
+					a.HasPCR, a.PCR, a.HasOPCR, a.OPCR = true, rndBytes(r, 6), true, rndBytes(r, 6)
+				case t >= 8:
+					a.HasPCR, a.PCR, a.HasTPD, a.TPD = true, rndBytes(r, 6), true, rndBytes(r, t-8)
+				case t == 7:
+					a.HasPCR, a.PCR = true, rndBytes(r, 6)
+				case t >= 2:
+					a.HasTPD, a.TPD = true, rndBytes(r, t-2)
+				}
+				src = pktWithAF(r, a, false)
+			}
 			e["arg"] = B(src[:])
 			if r.Intn(3) == 0 {
 				// the source is a copy of the packet as it is at that moment, with its private data and extension cut
